@@ -14,6 +14,7 @@ import numpy as np
 from vf.oracles import taxonomy as TX
 from vf.oracles import jaccard as J
 from vf.oracles import sigdef as S
+from vf.oracles.fasta import soft_mask
 
 HOSTILE = ['plain', 'with, comma', 'dq "quoted"', "sq 'single'", ' lead trail ', 'line\nfeed', 'crlf\r\nname', 'tab\there', 'Ünïcödé ß', '日本語の名前',
            '😀 emoji 𝔘', '‮rtl‬ mark', 'semi;colon', 'back\\slash', 'x' * 120, 'long name ' * 40, 'cafe\u0301 nfd', '\u212b angstrom \ufb01', 'zero\u200bwidth', '=formula()', '+plus', '@at', '-minus', '#hash', 'a,b\n"c"', 'percent % s {0}']
@@ -318,7 +319,7 @@ def sequence_world(rng, k=None, prefix=None, ng=None, nq=None, seqlen=None, cr_n
 			ti = rng.randrange(len(w.taxa))
 			s = _mutate(rng, tseq[ti], rng.choice([0.0, 0.01, 0.03]))
 			cuts = sorted(rng.sample(range(1, len(s)), rng.choice([0, 1, 2])))
-			contigs = [s[a:b] for a, b in zip([0] + cuts, cuts + [len(s)])]
+			contigs = [soft_mask(s[a:b]) for a, b in zip([0] + cuts, cuts + [len(s)])]
 		add_genome(w, rng, i, ti, S.signature(k, P, contigs), contigs=contigs, names_pool=pool_names)
 	nq = nq or rng.randint(1, 6)
 	labels = set()
@@ -327,14 +328,14 @@ def sequence_world(rng, k=None, prefix=None, ng=None, nq=None, seqlen=None, cr_n
 		if c < 0.1:
 			contigs = [b'C' * 300 + b'G' * 50]                        # no prefix on either strand for AT/TA-like prefixes -> maybe empty signature
 		elif c < 0.3:
-			contigs = [bytes(rng.choice(b'ACGT') for _ in range(L))]   # unrelated
+			contigs = [soft_mask(bytes(rng.choice(b'ACGT') for _ in range(L)))]   # unrelated
 		elif c < 0.45:
 			contigs = list(rng.choice(w.genomes)['contigs'])           # identical to a reference
 		else:
 			g = rng.choice(w.genomes)
 			s = _mutate(rng, b''.join(g['contigs']), rng.choice([0.005, 0.02, 0.08, 0.2]))
 			cuts = sorted(rng.sample(range(1, len(s)), rng.choice([0, 1, 3])))
-			contigs = [s[a:b] for a, b in zip([0] + cuts, cuts + [len(s)])]
+			contigs = [soft_mask(s[a:b]) for a, b in zip([0] + cuts, cuts + [len(s)])]
 		lab = f'sample_{j}'
 		w.queries.append(dict(label=lab, sig=S.signature(k, P, contigs), contigs=contigs))
 	for e in range(rng.randint(0, 4)):
